@@ -1638,3 +1638,6 @@ cdef class NNPS(NNPSBase):
         for name, arr in pa.properties.items():
             stride = pa.stride.get(name, 1)
             arr.c_align_array(indices, stride)
+        # The spatial order mixes ghost/remote particles with the local ones;
+        # keep the local particles in the first num_real_particles slots.
+        pa.align_particles()
